@@ -128,7 +128,7 @@ def run(name, items, keep=False):
                 except OSError: pass
             mine = nxt; part += 1
         return rcs, qrc_all, "".join(outs), errs, th, td
-    ok = 0; diffs = []; xs = []; skipped = []; dt = 0.0; crashed = 0
+    ok = 0; diffs = []; xs = []; skipped = []; dt = 0.0; crashed = 0; viols = 0
     with ThreadPoolExecutor(max_workers=nsh) as ex:
         for rc, qrc, out, err, th, td in ex.map(one, range(nsh)):
             dt += td
@@ -140,8 +140,9 @@ def run(name, items, keep=False):
                     if p[3] == "OK": ok += 1
                     else: diffs.append((p[1], p[4] if len(p) > 4 else ""))
                 elif p[0] == "K": skipped.append(line)
+                elif p[0] == "V": viols += 1
                 elif p[0] == "X": xs.append(line)
-    return ok, diffs, xs, skipped, dt, crashed
+    return ok, diffs, xs, skipped, dt, crashed, viols
 
 
 if __name__ == "__main__":
@@ -155,9 +156,10 @@ if __name__ == "__main__":
         rng = random.Random(seed * 7919 + sum(map(ord, name)))
         items = gen_set(name, n, rng)
         t0 = time.time()
-        ok, diffs, xs, skipped, dt, crashed = run(name, items, keep=bool(os.environ.get("KEEP")))
-        print("SET %-10s cases %6d ok %6d DIFF %5d skipped %4d X %4d harness-restarts %d driver %.1fs (%.0f ms per 1000 cases) wall %.1fs"
-              % (name, len(items), ok, len(diffs), len(skipped), len(xs), crashed, dt, 1e6 * dt / max(1, ok + len(diffs)), time.time() - t0), flush=True)
+        ok, diffs, xs, skipped, dt, crashed, viols = run(name, items, keep=bool(os.environ.get("KEEP")))
+        print("SET %-10s cases %6d ok %6d DIFF %5d skipped %4d X %4d harness-restarts %d driver %.1fs (%.0f ms per 1000 cases) wall %.1fs%s"
+              % (name, len(items), ok, len(diffs), len(skipped), len(xs), crashed, dt, 1e6 * dt / max(1, ok + len(diffs)), time.time() - t0,
+                 (" oracle-V %d" % viols) if viols else ""), flush=True)
         tot[0] += len(items); tot[1] += ok; tot[2] += len(diffs); tot[3] += len(skipped)
         for x in xs[:3]: print("   ", x[:300])
         for x in skipped[:3]: print("   ", x[:300])
